@@ -76,6 +76,10 @@ type Conn struct {
 	StallBytes int
 	stallCh    chan struct{}
 
+	// Dead is closed when Hung or Spun is set: whoever waits for the call that was using the
+	// connection learns that it will never return.
+	Dead       chan struct{}
+	deadOnce   sync.Once
 	Hung       bool // a read that can never be satisfied was attempted
 	Spun       bool // SpinLimit reads after EOF/close
 	BadRequest bool // handler sent bytes that are not a request frame
@@ -86,7 +90,7 @@ type Conn struct {
 
 // NewConn opens a connection to the store.
 func NewConn(s *Store, name string) *Conn {
-	c := &Conn{S: s, Name: name}
+	c := &Conn{S: s, Name: name, Dead: make(chan struct{})}
 	c.cond = sync.NewCond(&c.mu)
 	if s.Locked {
 		s.Mu.Lock()
@@ -267,6 +271,7 @@ func (c *Conn) Read(p []byte) (int, error) {
 			c.eofReads++
 			if c.eofReads >= SpinLimit {
 				c.Spun = true
+				c.markDead()
 				c.mu.Unlock()
 				if c.Async {
 					select {} // park forever (durably blocked inside a bubble)
@@ -286,11 +291,20 @@ func (c *Conn) Read(p []byte) (int, error) {
 		}
 		if !c.Async {
 			c.Hung = true
+			c.markDead()
 			c.mu.Unlock()
 			runtime.Goexit()
 		}
 		c.cond.Wait()
 	}
+}
+
+func (c *Conn) markDead() {
+	c.deadOnce.Do(func() {
+		if c.Dead != nil {
+			close(c.Dead)
+		}
+	})
 }
 
 // Close is the handler closing its side.
